@@ -26,7 +26,7 @@ from .absint import (
 from .b09lib import LIB_REL, b09lib
 from .core import AnalysisError, Ctx, rule
 from .emit import emitmodel
-from .pyast import call_name, pyfacts, unparse
+from .pyast import call_name, ctor_field, pyfacts, unparse
 from .rules_l import SYSTEM_MODULES
 from .visitormodel import PARSER_REL
 
@@ -280,6 +280,22 @@ def _where(c: Ctx, I, r: str, x: Obj) -> str:
     return site_name(c, x)
 
 
+_CUR_CTX: List[Any] = [None]  # the context of the rule that is running (slot matchers below have no ctx parameter)
+
+
+def _fx(c, o, idx: int, default: str):
+    """Field of the abstract object o that keeps its idx-th constructor argument."""
+    _CUR_CTX[0] = c
+    py = pyfacts(c)
+    # the role is defined by the base class of the hierarchy (subclasses have constructors of their own)
+    base = next((b for b in ("BasicRunCall", "BasicFunctionalExpression", "BasicFunctionCall", "BasicExpressionList") if b in py.classes and py.is_subclass(o.cls, b)), o.cls)
+    return o.fields.get(ctor_field(py, base, idx, default))
+
+
+def _el(c, argl):
+    return _fx(c, argl, 0, "_exp_list") if isinstance(argl, Obj) else None
+
+
 def run_sites(ctx: Ctx):
     """Every RUN the tool can emit: (where, callee, args:list[V] or None, result_is_str or None, line, file, kind)."""
 
@@ -293,16 +309,16 @@ def run_sites(ctx: Ctx):
                 if not isinstance(x, Obj):
                     continue
                 if py.is_subclass(x.cls, "BasicRunCall"):
-                    inv = x.fields.get("_run_invocation")
-                    argl = x.fields.get("_arguments")
-                    el = argl.fields.get("_exp_list") if isinstance(argl, Obj) else None
+                    inv = _fx(c, x, 0, "_run_invocation")
+                    argl = _fx(c, x, 1, "_arguments")
+                    el = _el(c, argl)
                     for nm in _names(inv) if inv is not None else ["?"]:
                         k = (x.file, nm, x.line)
                         sites.setdefault(k, {"where": _where(c, I, r, x), "inv": nm, "args": el, "result": None, "line": x.line, "file": x.file, "kind": "call", "rule": r, "cls": x.cls})
                 elif py.is_subclass(x.cls, "BasicFunctionalExpression"):
-                    inv = x.fields.get("_func")
-                    argl = x.fields.get("_args")
-                    el = argl.fields.get("_exp_list") if isinstance(argl, Obj) else None
+                    inv = _fx(c, x, 0, "_func")
+                    argl = _fx(c, x, 1, "_args")
+                    el = _el(c, argl)
                     res = x.fields.get("_is_str_expr")
                     for nm in _names(inv) if inv is not None else ["?"]:
                         k = (x.file, nm, x.line)
@@ -325,10 +341,10 @@ def run_sites(ctx: Ctx):
                         continue
                     o.file = rel
                     if o.cls == "BasicRunCall":
-                        inv, argl, res = o.fields.get("_run_invocation"), o.fields.get("_arguments"), None
+                        inv, argl, res = _fx(c, o, 0, "_run_invocation"), _fx(c, o, 1, "_arguments"), None
                     else:
-                        inv, argl, res = o.fields.get("_func"), o.fields.get("_args"), o.fields.get("_is_str_expr")
-                    el = argl.fields.get("_exp_list") if isinstance(argl, Obj) else None
+                        inv, argl, res = _fx(c, o, 0, "_func"), _fx(c, o, 1, "_args"), o.fields.get("_is_str_expr")
+                    el = _el(c, argl)
                     fn = _enclosing(m, n.lineno)
                     for nm in _names(inv) if inv is not None else ["?"]:
                         sites[(rel, nm, n.lineno)] = {"where": fn, "inv": nm, "args": el, "result": res, "line": n.lineno, "file": rel, "kind": "function" if o.cls != "BasicRunCall" else "call", "rule": "", "cls": o.cls}
@@ -722,9 +738,9 @@ def _match_slot(I: Interp, slot: Any, v: V, ops: List[Tuple[Tuple[int, ...], str
         if kind == "call":
             if not (isinstance(a, Obj) and a.cls == "BasicFunctionCall"):
                 return False
-            f = a.fields.get("_func")
-            argl = a.fields.get("_args")
-            el = argl.fields.get("_exp_list") if isinstance(argl, Obj) else None
+            f = _fx(_CUR_CTX[0], a, 0, "_func")
+            argl = _fx(_CUR_CTX[0], a, 1, "_args")
+            el = _el(_CUR_CTX[0], argl)
             if not (isinstance(f, Const) and isinstance(f.value, str) and f.value.lower() == d[1].lower()):
                 return False
             return isinstance(el, Seq) and len(el.items) == 1 and is_default(el.items[0], ("var", d[2]))
@@ -760,9 +776,9 @@ def _match_slot(I: Interp, slot: Any, v: V, ops: List[Tuple[Tuple[int, ...], str
             if is_op(a, k):
                 seen_plain = True
             elif isinstance(a, Obj) and a.cls == "BasicFunctionalExpression":
-                argl = a.fields.get("_args")
-                el = argl.fields.get("_exp_list") if isinstance(argl, Obj) else None
-                f = a.fields.get("_func")
+                argl = _fx(_CUR_CTX[0], a, 1, "_args")
+                el = _el(_CUR_CTX[0], argl)
+                f = _fx(_CUR_CTX[0], a, 0, "_func")
                 if not (isinstance(el, Seq) and len(el.items) == 1 and all(is_op(x, k) for x in alts_of(el.items[0])) and isinstance(f, Const) and f.value.lower().endswith("ecb_str")):
                     ok = False
             else:
@@ -832,17 +848,17 @@ def r1(ctx: Ctx):
         tops = [a for a in alts_of(v) if isinstance(a, Obj) and py.is_subclass(a.cls, "BasicRunCall")]
         if not tops:
             # print_at_statement returns BasicStatements([at, print])
-            tops = [c for c in calls if _names(c.fields.get("_run_invocation"))[0].lower().startswith("run ")][:1]
+            tops = [c for c in calls if _names(_fx(ctx, c, 0, "_run_invocation"))[0].lower().startswith("run ")][:1]
         ctx.need(len(tops) >= 1, rname, f"no RUN call object built by visit_{rname}")
-        all_names = {n.split()[-1] for top in tops for n in _names(top.fields.get("_run_invocation"))}
+        all_names = {n.split()[-1] for top in tops for n in _names(_fx(ctx, top, 0, "_run_invocation"))}
         want = procs if isinstance(procs, set) else {procs}
         okn = all_names == want
         ctx.ob(f"{rname}:procedure", okn, "" if okn else f"`{rname}` is translated into RUN {sorted(all_names)}, the statement is implemented by {sorted(want)}", file=tops[0].file, line=tops[0].line, props=["C04"])
         done_slots: Set[str] = set()
         for top in tops:
-            names = {n.split()[-1] for n in _names(top.fields.get("_run_invocation"))}
-            argl = top.fields.get("_arguments")
-            el = argl.fields.get("_exp_list") if isinstance(argl, Obj) else None
+            names = {n.split()[-1] for n in _names(_fx(ctx, top, 0, "_run_invocation"))}
+            argl = _fx(ctx, top, 1, "_arguments")
+            el = _el(ctx, argl)
             if not isinstance(el, Seq) or el.tail is not None:
                 raise AnalysisError("R1", rname, f"argument list is not fixed-length: {el!r}")
             if len(el.items) != len(pattern):
@@ -873,13 +889,13 @@ def r1(ctx: Ctx):
         fes = [a for a in alts_of(v) if isinstance(a, Obj) and py.is_subclass(a.cls, "BasicFunctionalExpression")]
         ctx.need(fes, rname, "no functional expression built")
         for fe in fes:
-            names = {n.split()[-1] for n in _names(fe.fields.get("_func"))}
+            names = {n.split()[-1] for n in _names(_fx(ctx, fe, 0, "_func"))}
             want = procs if isinstance(procs, set) else {procs}
             okn = names <= want and bool(names)
             props = ["C04", "C20"] if rname in ("instr_expr", "string_expr") else ["C04"]
             ctx.ob(f"{rname}:procedure", okn, "" if okn else f"`{rname}` calls {sorted(names)}, expected {sorted(want)}", file=fe.file, line=fe.line, props=props)
-            argl = fe.fields.get("_args")
-            el = argl.fields.get("_exp_list") if isinstance(argl, Obj) else None
+            argl = _fx(ctx, fe, 1, "_args")
+            el = _el(ctx, argl)
             if not isinstance(el, Seq) or el.tail is not None:
                 raise AnalysisError("R1", rname, f"argument list is not fixed-length: {el!r}")
             if len(el.items) != len(pattern):
